@@ -278,8 +278,30 @@ macro_rules | `(tactic| kp_leaf) => `(tactic| exact kp_directiveLocation)
 theorem kp_directiveLocations : Keeps P directiveLocations := by unfold directiveLocations; kp_auto
 macro_rules | `(tactic| kp_leaf) => `(tactic| exact kp_directiveLocations)
 
-set_option maxHeartbeats 400000 in
-theorem kp_directiveDefinition (n : Nat) : Keeps P (directiveDefinition n) := by unfold directiveDefinition; kp_auto
+/-- the second half of `directive_definition` (from `repeatable` on), split off to keep each proof small -/
+def directiveDefinitionTail : PI Unit := do
+  if kwOpt "repeatable" (← peekData) then bump "repeatable_KW"
+  match ← peekData with
+  | some d => if kw "on" d then bump "on_KW" else err
+  | none => pure ()
+  let k ← peek
+  if k == some .name || k == some .pipe then withNode "DIRECTIVE_LOCATIONS" directiveLocations
+  else err
+
+theorem directiveDefinition_split (n : Nat) : directiveDefinition n =
+    withNode "DIRECTIVE_DEFINITION" (do
+      if (← peek) == some .stringValue then description
+      if kwOpt "directive" (← peekData) then bump "directive_KW"
+      if (← peek) == some .at then bump "AT" else err
+      name
+      if (← peek) == some .lParen then withNode "ARGUMENTS_DEFINITION" (argumentsDefinitionBody n)
+      directiveDefinitionTail) := rfl
+
+theorem kp_directiveDefinitionTail : Keeps P directiveDefinitionTail := by unfold directiveDefinitionTail; kp_auto
+
+theorem kp_directiveDefinition (n : Nat) : Keeps P (directiveDefinition n) := by
+  have := kp_directiveDefinitionTail (P := P)
+  rw [directiveDefinition_split]; kp_auto
 macro_rules | `(tactic| kp_leaf) => `(tactic| exact kp_directiveDefinition _)
 
 theorem kp_extensions (n : Nat) : Keeps P (extensions n) := by unfold extensions; kp_auto
